@@ -73,6 +73,28 @@ class Registry:
                                        unit_sorts=o.unit_sorts))
 
 
+# ------------------------------------------------------------------ size-one configurations of dimension sorts
+def unit_variants(obs):
+    """additional obligations `<id>/<sort>=1` listed in /verif/unit_variants.json (tools/gen_unit_variants.py)"""
+    import copy
+    path = os.path.join(VERIF, "unit_variants.json")
+    if not os.path.exists(path):
+        return []
+    with open(path) as fh:
+        listed = {}
+        for oid, unit in json.load(fh).get("variants", []):
+            listed.setdefault(oid, []).append(unit)
+    out = []
+    for o in obs:
+        for unit in listed.get(o.id, []):
+            v = copy.copy(o)
+            v.id = f"{o.id}/{unit}=1"
+            v.unit_sorts = tuple(o.unit_sorts) + (unit,)
+            v.tier = "quick"
+            out.append(v)
+    return out
+
+
 # ------------------------------------------------------------------ size assignments for the numeric world
 def size_assignments(ob, nvariants, seed):
     """distinct small sizes per sort respecting ob.order; deterministic in seed"""
@@ -200,7 +222,7 @@ def _worker(args):
     modname, oid, tier, seed, want_numeric = args
     try:
         mod = importlib.import_module(modname)
-        ob = [o for o in mod.REG.obs if o.id == oid][0]
+        ob = [o for o in list(mod.REG.obs) + unit_variants(mod.REG.obs) if o.id == oid][0]
         sym = run_symbolic(ob)
         sym["clauses"] = [c for c in sym["clauses"] if ob.keeps(c["clause"])]
         failed = [c for c in sym["clauses"] if not c["ok"]]
@@ -267,6 +289,7 @@ def check_property(prop, tier="quick", seed=0, jobs=None, only=None, write_evide
     modname = f"gtv.props.{prop}"
     mod = importlib.import_module(modname)
     obs = [o for o in mod.REG.obs if tier == "thorough" or o.tier == "quick"]
+    obs = obs + unit_variants(mod.REG.obs)
     if isinstance(only, (set, frozenset)):
         obs = [o for o in obs if o.id in only]
     elif only:
